@@ -7,10 +7,11 @@ for d in sorted(glob.glob('/verif/seeded/C*-m*')):
         try: return json.load(open(os.path.join(d, f)))
         except Exception: return {}
     meta = load('meta.json'); ver = load('verified.json'); res = load('result_%s.json' % prop).get(prop, {})
-    out.append({'seed': name, 'property': prop, 'round': 1 if name.endswith(('m1', 'm2')) else 2,
+    out.append({'seed': name, 'property': prop, 'round': {'1': 1, '2': 1, '3': 2, '4': 2, '5': 3, '6': 3, '7': 4, '8': 4}.get(name[-1], 0),
                 'summary': (meta.get('summary') or '')[:200], 'needs': (meta.get('needs_to_manifest') or '')[:200],
                 'confirmed': bool(ver.get('applies') and ver.get('suite_passes_with_change') and ver.get('demo_fails_with_change') and ver.get('demo_passes_without_change')),
+                'still_a_violation': bool(ver.get('demo_fails_with_change')),     # false: a later fix made the change harmless (its demonstration passes with it)
                 'reported_by_check': res.get('exit') == 1 and bool(res.get('violations')),
                 'violation_line': (res.get('violations') or [''])[0], 'check_summary': res.get('summary', '')})
 json.dump(out, open('/verif/seeded/INDEX.json', 'w'), indent=1, ensure_ascii=False)
-print(len(out), 'seeds;', sum(1 for o in out if o['confirmed']), 'confirmed;', sum(1 for o in out if o['reported_by_check']), 'reported')
+print(len(out), 'seeds;', sum(1 for o in out if o['confirmed']), 'confirmed;', sum(1 for o in out if o['reported_by_check']), 'reported;', [o['seed'] for o in out if o['confirmed'] and not o['reported_by_check']], 'confirmed but not reported;', [o['seed'] for o in out if not o['confirmed']], 'not (or no longer) a violation')
